@@ -43,6 +43,9 @@ type action struct {
 	alt       bool // a key taken from the observed state is passed in an alternative hex spelling of the same bytes
 	dup       bool // registerCandidate of a key that is already in the pool, in another spelling
 	dupStaked bool // ... on which somebody other than the owner holds a position
+	// rep: the call's peer list names one peer more than once; how the sum of that peer's amounts relates to what the
+	// state offers for it ("below", "equal", "exceeds"; "same" for lists without amounts; "arbitrary" for arbitrary lists)
+	rep string
 }
 
 type hist struct {
@@ -70,6 +73,7 @@ type hist struct {
 	alt, altHit          bool // spelling mode of the step being built / a key was really respelt (actions_test.go: sp)
 	dupTried, dupStaked  bool // the history offered an in-pool key again in another spelling (… of a peer others staked on)
 	dupSplit             bool // ... and a split2 settlement with income followed (C10)
+	repeated             bool // a list-taking call built from the state named one peer more than once
 	counts               map[string]int
 }
 
@@ -141,10 +145,25 @@ func (h *hist) exec(a *action) bool {
 		h.class(a.kind + ":valid")
 		h.class(a.kind + ":valid:" + res)
 		h.class("intent:valid:" + res)
+	case a.rep == "exceeds":
+		// built from the observed state, every entry valid on its own, but the same peer's entries add up to more than
+		// the state offers: neither a valid-by-construction nor an arbitrary action
+		h.class(a.kind)
+		h.class(a.kind + ":" + res)
+		h.class("intent:overdrawn-repeat:" + res)
 	default:
 		h.class(a.kind)
 		h.class(a.kind + ":" + res)
 		h.class("intent:arbitrary:" + res)
+	}
+	if a.rep != "" {
+		h.class(a.kind + ":repeat")
+		h.class(a.kind + ":repeat:" + a.rep)
+		h.class(a.kind + ":repeat:" + a.rep + ":" + res)
+		if a.rep != "arbitrary" {
+			h.class("repeat:fromState")
+			h.repeated = true
+		}
 	}
 	h.log = append(h.log, a.desc+"="+res)
 	if ok {
@@ -203,7 +222,12 @@ func (h *hist) exec(a *action) bool {
 		h.class("registerCandidate:ok:again-with-undrained-penalty")
 	}
 	if a.kind == "blackNode" {
+		seen := map[string]bool{}
 		for _, pub := range a.mod.pubs {
+			if seen[pub] {
+				continue
+			}
+			seen[pub] = true
 			if p, in := pre.pool[pub]; in && p.status != stBlack && pre.apen[pub] > 0 {
 				h.class("blackNode:ok:reblacklist-with-undrained-penalty")
 				if pre.othersStaked(p) {
@@ -314,6 +338,46 @@ func (h *hist) judgeC11(a *action, pre, post *snap) {
 		}
 		if paid > unfrozen {
 			h.fail("%s paid %d ONT to %s although only %d was unfrozen for the listed peers", a.desc, paid, h.w.name(ad), unfrozen)
+		}
+		// per listed peer (a peer may be listed more than once; the entries are processed one after the other): all its
+		// entries together take no more than was unfrozen on it, and what they take leaves the unfrozen record - ONT
+		// paid out that stayed recorded as unfrozen could be withdrawn a second time
+		unfOf := func(s *snap, pub string) (u uint64) {
+			for i := range s.auth {
+				if s.auth[i].pub == pub && s.auth[i].addr == ad {
+					u += s.auth[i].unfreeze
+				}
+			}
+			return
+		}
+		asked, times := map[string]uint64{}, map[string]int{}
+		var askedAll uint64
+		for i, pub := range a.mod.pubs {
+			times[pub]++
+			asked[pub] += a.mod.amts[i]
+			askedAll += a.mod.amts[i]
+		}
+		for pub := range seen {
+			u0, u1 := unfOf(pre, pub), unfOf(post, pub)
+			if asked[pub] > u0 {
+				h.fail("%s succeeded although its entries for %s add up to %d ONT and only %d was unfrozen on that peer for %s", a.desc, h.w.nodeName(pub), asked[pub], u0, h.w.name(ad))
+			}
+			if u1 != u0-asked[pub] {
+				h.fail("%s took %d ONT from the unfrozen position of %s on %s (%d before), but the record now says %d instead of %d",
+					a.desc, asked[pub], h.w.name(ad), h.w.nodeName(pub), u0, u1, u0-asked[pub])
+			}
+		}
+		if _, tracked := pre.ont[ad]; tracked && paid > askedAll {
+			h.fail("%s paid %d ONT to %s, more than the %d the call asked for", a.desc, paid, h.w.name(ad), askedAll)
+		}
+		if a.rep != "" && a.rep != "arbitrary" && paid > 0 {
+			h.class("withdraw:ok:repeat:paid>0")
+			for i := range pre.auth { // the pair keeps other positions: its record survives whatever the entries take
+				if e := &pre.auth[i]; e.addr == ad && times[e.pub] > 1 && e.staked()+e.wcons+e.wcand > 0 {
+					h.class("withdraw:ok:repeat:recordKeepsStake")
+					break
+				}
+			}
 		}
 		// independent release model: per pair by the amounts of the call, per address by the ONT really received
 		for i, pub := range a.mod.pubs {
